@@ -81,6 +81,10 @@ func (n eqNode) build() any {
 		return a
 	case "strs":
 		return append([]string{}, n.Ss...)
+	case "anyslice":
+		return []any{n.Ss[0], n.Vs[0], n.Ss[1] == "t"}
+	case "anyarr":
+		return [2]any{n.Ss[0], n.Vs[0]}
 	case "fslice":
 		f := make([]float64, len(n.Vs))
 		for i, v := range n.Vs {
@@ -165,7 +169,7 @@ func (n eqNode) String() string {
 		return fmt.Sprintf("%s%v", n.T, n.Vs)
 	case "sarr":
 		return fmt.Sprintf("sarr%q", n.Ss)
-	case "imap", "nstruct":
+	case "imap", "nstruct", "anyslice", "anyarr":
 		return fmt.Sprintf("%s%v%q", n.T, n.Vs, n.Ss)
 	case "typed":
 		return fmt.Sprintf("%s(%d)", n.Kind, n.Vs[0])
@@ -256,6 +260,22 @@ func (n eqNode) mutants() []eqNode {
 				m2.Vs = m2.Vs[:len(m2.Vs)-1]
 				add(m2, "slice one element shorter")
 			}
+		}
+	case "anyslice", "anyarr":
+		m := cloneNode(n)
+		m.Vs[0] += 2
+		add(m, n.T+" number element changed")
+		m2 := cloneNode(n)
+		m2.Ss[0] += "'"
+		add(m2, n.T+" string element changed")
+		if n.T == "anyslice" {
+			m3 := cloneNode(n)
+			if m3.Ss[1] == "t" {
+				m3.Ss[1] = "f"
+			} else {
+				m3.Ss[1] = "t"
+			}
+			add(m3, "anyslice bool element changed")
 		}
 	case "fslice", "ptr3", "typed":
 		for i := range n.Vs {
@@ -375,7 +395,7 @@ func (n eqNode) mutants() []eqNode {
 		for i := 0; i+1 < len(n.Kids); i++ {
 			// IsEqual documents that it does not distinguish slices from arrays of equal content
 			// ... and that pointers are flattened at any depth (a *int 7 is the leaf value 7)
-			norm := strings.NewReplacer("array", "slice", "&", "", "pstruct", "struct")
+			norm := strings.NewReplacer("array", "slice", "&", "", "pstruct", "struct", "alias:", "stack:")
 			if norm.Replace(n.Kids[i].String()) != norm.Replace(n.Kids[i+1].String()) {
 				m5 := cloneNode(n)
 				m5.Kids[i], m5.Kids[i+1] = m5.Kids[i+1], m5.Kids[i]
@@ -404,6 +424,7 @@ func eqLeaves() []eqNode {
 		{T: "fslice", Vs: []int{1, 2}}, {T: "sarr", Ss: []string{"p", "q"}}, {T: "imap", Vs: []int{1, 2}, Ss: []string{"a", "b"}}, {T: "ptr3", Vs: []int{9}},
 		{T: "nstruct", Vs: []int{4, 5}, Ss: []string{"s", "l"}}, {T: "typed", Kind: "int64", Vs: []int{6}}, {T: "typed", Kind: "uint16", Vs: []int{6}},
 		{T: "typed", Kind: "float32", Vs: []int{6}}, {T: "typed", Kind: "complex128", Vs: []int{6}}, {T: "typed", Kind: "rune", Vs: []int{66}}, {T: "prim", V: "é日本"},
+		{T: "anyslice", Vs: []int{1}, Ss: []string{"a", "t"}}, {T: "anyarr", Vs: []int{1}, Ss: []string{"a"}},
 	}
 }
 
